@@ -3,6 +3,13 @@ import OtelVerif.Model.TraceState
 namespace Driver
 open Otel Otel.TraceState
 
+def kvArgs : List String → Option (List (Bytes × Bytes))
+  | [] => some []
+  | k :: v :: rest => match ofHexStr k, ofHexStr v, kvArgs rest with
+    | some k, some v, some t => some ((k, v) :: t)
+    | _, _, _ => none
+  | _ => none
+
 /-- `ts <op> ; <op> ; …` over a growing family of states (state 0 = the default empty state).
     ops: `from <hdr>` | `set <i> <k> <v>` | `del <i> <k>` | `get <i> <k>` | `hdr <i>` | `vk <k>` | `vv <v>` -/
 def tsOp (states : Array Entries) : List String → Array Entries × String
@@ -35,6 +42,33 @@ def tsOp (states : Array Entries) : List String → Array Entries × String
   | ["vv", v] => match ofHexStr v with
     | some v => (states, bool01 (isValidValue v))
     | none => (states, "bad-op")
+  | ["emp", i] => match i.toNat? with
+    | some i => match states[i]? with
+      | some s => (states, bool01 s.isEmpty)
+      | none => (states, "bad-op")
+    | none => (states, "bad-op")
+  -- `GetAllEntries` with a callback that declines on its n-th call (0 = never)
+  | ["ents", i, n] => match i.toNat?, n.toNat? with
+    | some i, some n => match states[i]? with
+      | some s => (states, s!"r={bool01 (n == 0 || s.length < n)} {showEntries (if n == 0 then s else s.take n)}")
+      | none => (states, "bad-op")
+    | _, _ => (states, "bad-op")
+  -- the tokenizer with explicit options
+  | ["tok", msep, kvsep, ign, h] => match ofHexStr msep, ofHexStr kvsep, ofHexStr h with
+    | some [msep], some [kvsep], some h =>
+      if ign != "0" && ign != "1" then (states, "bad-op") else
+      let ms := if ign == "1" then members msep h else membersAll msep h
+      let show1 := fun (m : Bytes) => if m.isEmpty then "-:-" else match splitKv kvsep m with
+        | none => "!"
+        | some (k, v) => hexArg k ++ ":" ++ hexArg v
+      (states, s!"n={numTok msep h} t=[{",".intercalate (ms.map show1)}]")
+    | _, _, _ => (states, "bad-op")
+  -- `KeyValueProperties(capacity)` filled with `AddEntry`
+  | "kvp" :: cap :: rest => match cap.toNat?, kvArgs rest with
+    | some cap, some kvs => if cap > 64 then (states, "bad-op") else
+      let p := kvs.foldl (fun (p : KvProps) e => p.add e.1 e.2) ⟨cap, []⟩
+      (states, s!"s={p.entries.length} {showEntries p.entries}")
+    | _, _ => (states, "bad-op")
   | _ => (states, "bad-op")
 
 def handleTs (toks : List String) : String :=
